@@ -198,6 +198,47 @@ def cached_rest_on_traces(res):
                       {"kind": "oracle", "case": {k: v for k, v in c.items() if k != "schedule"}, "schedule": c["schedule"][:400]})
 
 
+def order_on_traces(res):
+    """Model/DepOrderSpec.v (order_ok) evaluated along runs of the real resolver in front of ONE block worker: bodies run in
+    forwarding order; calls forwarded directly are forwarded in submission order"""
+    import lockstep
+    rng = res.rng
+    n = 30 if res.tier == "quick" else 300
+    cases = []
+    while len(cases) < n:
+        c = lockstep.gen_dep_case(rng, allow_fail=False)
+        if c["mode"] != "dep-block" or not c["calls"]:
+            continue
+        c["max_workers"] = 1
+        c["schedule"] = lockstep.gen_schedule(rng, 4000)
+        c["step_limit"] = 4000
+        cases.append(c)
+    results = lockstep.run_cases(cases)
+    exprs, keep = [], []
+    for c, r in zip(cases, results):
+        if r["verdict"] not in ("done", "deadlock", "quiescent"):
+            continue
+        deps = ["[%s]" % "; ".join(str(d) for d in x.get("deps", [])) for x in c["calls"]]
+        picks = [lockstep.tid_coq_x(t[1]) for t in r["trace"]]
+        exprs.append("(dorder_case [] [%s] %d [%s] [%s])%%nat" % ("; ".join(deps), len(c["calls"]),
+                     "; ".join(lockstep.op_coq(o) for o in c["ops"]), "; ".join(picks)))
+        keep.append(c)
+    try:
+        outs = core.eval_strings(["Base.Dec", "Model.Exec", "Model.DepExec", "Model.DepOrderShow"], exprs, "dorder", shard=60)
+    except core.CaseEvalError as ex:
+        res.violation("Model/DepOrderShow.v could not be evaluated: %s" % str(ex)[-400:], {"kind": "tie", "theorem": "Model/DepOrderSpec.v"},
+                      found_input=False)
+        return
+    res.cov["order_statement_traces"] = len(outs)
+    res.cov["order_statement_bodies"] = sum(int(o.split()[1]) for o in outs if o.startswith("ok "))
+    bad = [(c, o) for c, o in zip(keep, outs) if not (o.startswith("ok ") or o == "stuck")]
+    if bad:
+        c, o = bad[0]
+        res.violation("one block worker behind the resolver: the executed bodies are not a subsequence of the forwarding order, or "
+                      "directly forwarded calls are not forwarded in submission order (Model/DepOrderSpec.v order_ok): %s" % o,
+                      {"kind": "oracle", "case": {k: v for k, v in c.items() if k != "schedule"}, "schedule": c["schedule"][:400]})
+
+
 def real_slice(res, pid, kind, n_quick=2, n_thorough=10):
     """a few runs with real processes / real zmq / a real interpreter exit (harness/real.py)"""
     import sys
@@ -231,6 +272,8 @@ def run(res, pid):
         ctor_limits(res)
     if pid == "C02":
         cached_rest_on_traces(res)
+    if pid == "C11":
+        order_on_traces(res)
     if pid == "C03":
         import traverse
         try:
